@@ -428,6 +428,38 @@ impl<'a, 'tcx> Cx<'a, 'tcx> {
         }
     }
 
+    /// for `switchInt(discriminant(place))`: value -> variant name of the enum being matched
+    fn switch_variants(&self, data: &BasicBlockData<'tcx>, discr: &Operand<'tcx>) -> Option<String> {
+        let l = match discr {
+            Operand::Copy(p) | Operand::Move(p) if p.projection.is_empty() => p.local,
+            _ => return None,
+        };
+        for s in data.statements.iter().rev() {
+            if let StatementKind::Assign(b) = &s.kind {
+                if b.0.local == l && b.0.projection.is_empty() {
+                    if let Rvalue::Discriminant(pl) = &b.1 {
+                        let ty = pl.ty(self.body, self.tcx).ty;
+                        if let ty::Adt(adt, _) = ty.kind() {
+                            if adt.is_enum() {
+                                let mut v = vec![];
+                                for (vi, d) in adt.discriminants(self.tcx) {
+                                    v.push(format!("{}:{}", js(&format!("{}", d.val)), js(&adt.variant(vi).name.to_string())));
+                                }
+                                return Some(format!(
+                                    "{{\"enum\":{},\"names\":{{{}}}}}",
+                                    js(&did(self.tcx, adt.did())),
+                                    v.join(",")
+                                ));
+                            }
+                        }
+                    }
+                    return None;
+                }
+            }
+        }
+        None
+    }
+
     fn terminator(&self, t: &Terminator<'tcx>) -> String {
         let bb = |b: &BasicBlock| format!("{}", b.as_u32());
         let unwind = |u: &UnwindAction| match u {
@@ -568,7 +600,13 @@ impl<'a, 'tcx> Cx<'a, 'tcx> {
                     _ => {}
                 }
             }
-            let term = self.terminator(data.terminator());
+            let mut term = self.terminator(data.terminator());
+            if let TerminatorKind::SwitchInt { discr, .. } = &data.terminator().kind {
+                if let Some(v) = self.switch_variants(data, discr) {
+                    term.pop();
+                    term.push_str(&format!(",\"variants\":{}}}", v));
+                }
+            }
             let mut f: Vec<(&str, String)> = vec![("s", jarr(&stmts)), ("t", term)];
             if data.is_cleanup {
                 f.push(("cleanup", "true".to_string()));
